@@ -9,6 +9,7 @@ Facts (each one is the presence / order of statements, checked on comment-stripp
   requeueAtHead        ... with janet_q_push_head (front of the queue)
   redispatchToNext     janet_thread_chan_cb, stale read message: pops the next pending reader and posts the item to it
   cbChecksSchedId      janet_thread_chan_cb delivers only if fiber->sched_id == sched_id
+  forwardOwnSchedId    a forwarded (re-dispatched) message takes fiber, mode AND sched_id from the next pending entry
   increfBeforeSend     marshal_one_abstract: janet_abstract_incref before the pointer of a threaded abstract is written
   unmarshalAccounts    unmarshal LB_THREADED_ABSTRACT: new table entry takes over the in-transit reference, else decref
   unmarshalKnownTestIsAbsent  ... and "new" means the key is absent (janet_checktype(check, JANET_NIL)), not "value is false"
@@ -75,6 +76,20 @@ def extract(tree):
     rd = cb[i:match_brace(cb, i)]
     mpop = re.search(r"if\s*\(\s*!\s*janet_q_pop\s*\(\s*&channel->read_pending\s*,\s*&reader", rd)
     flags["redispatchToNext"] = bool(mpop and re.search(r"msg\.argj\s*=\s*x\s*;[^}]*janet_ev_post_event\s*\(\s*vm\s*,\s*janet_thread_chan_cb", rd, re.S))
+    # the forwarded message must carry the NEXT waiter's own sched_id (reader.sched_id / writer.sched_id)
+    wr_m = re.search(r"if\s*\(\s*!\s*janet_q_pop\s*\(\s*&channel->write_pending\s*,\s*&writer[^{]*\{", cb)
+    own_w = False
+    if wr_m:
+        wb = cb[wr_m.end() - 1:match_brace(cb, wr_m.end() - 1)]
+        own_w = bool(re.search(r"msg\.argi\s*=\s*\(\s*int32_t\s*\)\s*writer\.sched_id\s*;", wb) and re.search(r"msg\.fiber\s*=\s*writer\.fiber\s*;", wb)
+                     and re.search(r"msg\.tag\s*=\s*writer\.mode\s*;", wb))
+    own_r = False
+    if mpop:
+        j0 = rd.index("{", mpop.end())
+        rb = rd[j0:match_brace(rd, j0)]
+        own_r = bool(re.search(r"msg\.argi\s*=\s*\(\s*int32_t\s*\)\s*reader\.sched_id\s*;", rb) and re.search(r"msg\.fiber\s*=\s*reader\.fiber\s*;", rb)
+                     and re.search(r"msg\.tag\s*=\s*reader\.mode\s*;", rb))
+    flags["forwardOwnSchedId"] = own_w and own_r
     requeue, head = False, False
     if mpop:
         j = rd.index("{", mpop.end())
